@@ -70,6 +70,7 @@ ATOMS = [
     "%40", "%3A", "%25", "%2B", "%2541", "%E9", "%e9", "%00", "%0A", "%7F", "%7f", "%C2%85",
     "%C2", "%85", "%A9", "%F0%9F%8D%8A", "%F0%9F", "%ED%A0%80", "%C0%80", "%", "%4", "%zz",
     "4", "1", "zz", "\t", "\n", "%5B", "%E2%82",
+    "%C2%A0", "%E3%80%80", "%E2%80%83", "%e2%80%a8", "\u3000", "\xa0", "%E1%9A%80", "%E2%81%9F", "%E2%80%AF",
 ]
 FNS = [
     "safely_quote",
@@ -81,7 +82,7 @@ FNS = [
 ]
 CORPUS = [
     "/%2541", "/a%E9b", "%7F%C2%85", "a b", "/%2F", "u%2Fx", "%%34%31", "%zz", "%", "%4",
-    "t%C3%A9%40%3A%20", "é%3F%26%3D%20 ", "%C3é", "%E2%82%AC", "%e2%82%ac%41", "%F4%90%80%80",
+    "x%E3%80%80", "%C2%A0x%E2%80%83", "t%C3%A9%40%3A%20", "é%3F%26%3D%20 ", "%C3é", "%E2%82%AC", "%e2%82%ac%41", "%F4%90%80%80",
 ]
 BYTE_ATOMS = [
     [0x41], [0x20], [0xC3, 0xA9], [0xC3], [0xA9], [0xE2, 0x82, 0xAC], [0xE2, 0x82], [0xE2], [0x82],
@@ -103,7 +104,7 @@ def cases(rng, tier):
     if tier == "thorough":
         for t in itertools.product(ATOMS, repeat=3):
             yield {"s": "".join(t)}
-    n = 6000 if tier == "quick" else 60000
+    n = 30000 if tier == "quick" else 120000
     for _ in range(n):
         k = rng.randint(3, 12)
         yield {"s": "".join(rng.choice(ATOMS) for _ in range(k))}
@@ -112,7 +113,7 @@ def cases(rng, tier):
         yield {"bytes": a}
     for a, b in itertools.product(BYTE_ATOMS, repeat=2):
         yield {"bytes": a + b}
-    m = 2000 if tier == "quick" else 30000
+    m = 10000 if tier == "quick" else 50000
     for _ in range(m):
         k = rng.randint(3, 6)
         bs = []
